@@ -18,8 +18,23 @@ def infer(vs, k):
 def infer_via_store(vs, k):
     """as the pipeline really merges: per-value types are encoded at trace time, decoded when a stub is wanted, and only
     then merged"""
+    return infer_via_store_kept(vs, k)[0]
+
+
+def infer_via_store_kept(vs, k):
+    """-> (merged type, the values whose per-value type decoded). A per-value type that does not decode (a class that cannot be
+    found again by module + qualified name: defined inside a function) is skipped, as stub generation skips such a trace."""
     from monkeytype.encoding import type_from_json, type_to_json
-    return shrink_types([type_from_json(type_to_json(get_type(v, k))) for v in vs], k)
+    from monkeytype.exceptions import MonkeyTypeError
+    types_, kept = [], []
+    for v in vs:
+        j = type_to_json(get_type(v, k))
+        try:
+            types_.append(type_from_json(j))
+        except MonkeyTypeError:
+            continue
+        kept.append(v)
+    return shrink_types(types_, k), kept
 
 
 def _traced(x):
@@ -35,7 +50,7 @@ def infer_via_traces(vs, k):
     for v in vs:
         t = get_type(v, k)
         traces.append(CallTrace(_traced, {"x": t}, t, t))
-    args, ret, yld = shrink_traced_types(traces, k)
+    args, ret, yld = shrink_traced_types((t for t in traces), k)  # an Iterable, as documented: here a one-shot generator
     return args["x"], ret, yld
 
 
